@@ -1,0 +1,87 @@
+//! Verification hooks, compiled only with the `verif` cargo feature.
+//!
+//! * re-exports of internal types so that they can be driven directly,
+//! * a thread-local, append-only event log written at a few points of the node's life,
+//! * a thread-local registry of the live routing tables.
+//!
+//! Nothing here changes the behaviour of the node.
+
+pub use crate::bucket::{Bucket, MAX_BUCKET_SIZE};
+pub use crate::node::{Node, NodeHandle, NodeStatus};
+pub use crate::storage::AnnounceStorage;
+pub use crate::table::{RoutingTable, MAX_BUCKETS};
+pub use crate::token::{Token, TokenStore};
+pub use crate::transaction::{AIDGenerator, ActionID, MIDGenerator, TransactionID};
+
+use crate::info_hash::{InfoHash, NodeId};
+use std::{
+    cell::RefCell,
+    sync::{Arc, Mutex, Weak},
+};
+use tokio::time::Instant;
+
+#[derive(Clone, Debug, PartialEq, Eq)]
+pub enum EventKind {
+    /// The handler was created; `refresh` / `bootstrap` are the action ids of the two activities.
+    NodeCreated { refresh: u64, bootstrap: u64 },
+    /// A routing table refresh round is starting; `pending_timers` is the number of scheduled
+    /// timeouts at that moment (before the next round is scheduled).
+    RefreshRound { pending_timers: usize },
+    /// The bootstrap worker changed state.
+    BootstrapState { state: &'static str },
+    /// The handler observed that the bootstrap has completed.
+    BootstrapCompleted,
+    /// A lookup got its action id (it may complete at once when no node can be queried).
+    LookupStarted { info_hash: InfoHash, action: u64, announce: bool },
+    /// A lookup was finished (peers announced, stream closed).
+    LookupFinished { action: u64 },
+}
+
+#[derive(Clone, Debug)]
+pub struct Event {
+    pub at: Instant,
+    pub node: NodeId,
+    pub kind: EventKind,
+}
+
+thread_local! {
+    static EVENTS: RefCell<Vec<Event>> = const { RefCell::new(Vec::new()) };
+    static TABLES: RefCell<Vec<(NodeId, Weak<Mutex<RoutingTable>>)>> = const { RefCell::new(Vec::new()) };
+}
+
+pub(crate) fn record(node: NodeId, kind: EventKind) {
+    let event = Event {
+        at: Instant::now(),
+        node,
+        kind,
+    };
+    // `try_with`: the log may already be gone while the thread is shutting down.
+    let _ = EVENTS.try_with(|events| events.borrow_mut().push(event));
+}
+
+/// Remove and return the events recorded on this thread so far.
+pub fn take_events() -> Vec<Event> {
+    EVENTS.with(|events| std::mem::take(&mut *events.borrow_mut()))
+}
+
+pub(crate) fn register_table(node: NodeId, table: &Arc<Mutex<RoutingTable>>) {
+    let _ = TABLES.try_with(|tables| tables.borrow_mut().push((node, Arc::downgrade(table))));
+}
+
+/// Routing tables of the nodes created on this thread that are still alive.
+pub fn tables() -> Vec<(NodeId, Arc<Mutex<RoutingTable>>)> {
+    TABLES.with(|tables| {
+        let mut tables = tables.borrow_mut();
+        tables.retain(|(_, table)| table.strong_count() > 0);
+        tables
+            .iter()
+            .filter_map(|(id, table)| Some((*id, table.upgrade()?)))
+            .collect()
+    })
+}
+
+/// Forget everything recorded on this thread.
+pub fn reset() {
+    let _ = take_events();
+    TABLES.with(|tables| tables.borrow_mut().clear());
+}
